@@ -63,8 +63,11 @@ def place_frames(rng, nframes_max, wsize, first_min, gen_hex, p_corrupt):
     """Sequential placement with gaps >= MIN_GAP; returns frame dicts."""
     frames = []
     pos = first_min + rng.choice([0, 0, 1, 2, 3, rng.randrange(0, 200)])
+    p_repeat = rng.choice([0.0, 0.0, 0.3])
     while len(frames) < nframes_max:
         hx = gen_hex(rng)
+        if frames and rng.random() < p_repeat:
+            hx = frames[-1]["hex"]   # the same reply again (e.g. repeated DF11 / identification squitter)
         nb = len(hx) * 4
         fs = rf.frame_samples(nb)
         if pos + fs > wsize:
@@ -137,9 +140,50 @@ def decreasing_levels(rng, windows, shape, noise):
     noise["regime"] = "decreasing"
 
 
+def generate_dense(rw, rn, tier):
+    """Dense regime: one large first buffer packed with strong frames at the
+    minimum legal spacing from sample 0 on, so that no aligned 100-us window in
+    the packed stretch is noise only; then a quiet stretch (the noise-only windows
+    the premise asks for come *late* in the buffer) and weak frames."""
+    shape = rn.choice(rf.SHAPES)
+    snr = rn.choice(SNRS)
+    nstrong = rw.choice([20, 30, 45, 60])
+    frames = []
+    pos = rw.choice([0, 0, 1, 3, 150])
+    for _ in range(nstrong):
+        # pick long or short so that the frame's end leaves no aligned 200-sample
+        # window inside the minimum gap that follows
+        want_long = ((pos + 240) % 200) in range(1, 160)
+        if not want_long and ((pos + 128) % 200) not in range(1, 160):
+            want_long = rw.random() < 0.5
+        for _try in range(40):
+            hx = gen_frame_hex(rw)
+            if (len(hx) == 28) == want_long:
+                break
+        fs = rf.frame_samples(len(hx) * 4)
+        frames.append({"hex": hx, "start": pos, "amp": rw.choice([1.2, 1.3, 1.4]), "ripple": 0.0, "rseed": rw.getrandbits(31), "flips": []})
+        pos += fs + MIN_GAP
+    pos += rw.choice([400, 600, 1000])   # >= 2 aligned noise-only windows somewhere in here
+    for _ in range(rw.choice([1, 2, 4])):
+        hx = gen_frame_hex(rw)
+        fs = rf.frame_samples(len(hx) * 4)
+        frames.append({"hex": hx, "start": pos, "amp": rw.choice([0.3, 0.32, 0.4]), "ripple": 0.0, "rseed": rw.getrandbits(31), "flips": []})
+        pos += fs + rw.choice([MIN_GAP, 300, 800])
+    n = pos + rw.choice([0, 1, 100, 700])
+    windows = [{"n": n, "nseed": rn.getrandbits(31), "frames": frames}]
+    if rw.random() < 0.5:
+        windows.append({"n": rw.choice([2000, 4096]), "nseed": rn.getrandbits(31),
+                        "frames": place_frames(rw, rw.choice([1, 2, 3]), 2000, rw.choice([0, 7, 400]), gen_frame_hex, 0.0)})
+    noise = finish_noise(windows, shape, snr)
+    noise["regime"] = "dense"
+    return {"rig": NAME, "prop": PROP, "noise": noise, "windows": windows}
+
+
 def generate(run_seed, tier):
     rw = substream(run_seed, "world")
     rn = substream(run_seed, "noise")
+    if rw.random() < 0.04:
+        return generate_dense(rw, rn, tier)
     nwin = rw.choice([1, 2, 2, 3, 4, 6])
     sizes = [2000, 3000, 4096, 8000] + ([20000] if tier != "quick" or rw.random() < 0.1 else [])
     if tier != "quick" and rw.random() < 0.02:
@@ -148,18 +192,21 @@ def generate(run_seed, tier):
     shape = rn.choice(rf.SHAPES)
     snr = rn.choice(SNRS)
     p_corrupt = rw.choice([0.0, 0.2, 0.5])
+    decreasing = rn.random() < 0.3
     windows = []
     left = 12
     for wi in range(nwin):
         n = rw.choice(sizes)
         k = rw.choice([0, 1, 1, 2, 3, 5]) if wi > 0 else rw.choice([1, 1, 2, 3])
         k = min(k, left)
-        first_min = 400 if wi == 0 else rw.choice([0, 0, 1, 7, 400])
+        # a window in which the noise level may have dropped starts with two
+        # noise-only 100-us windows: the receiver must have heard the new level
+        first_min = 400 if (wi == 0 or decreasing) else rw.choice([0, 0, 1, 7, 400])
         frames = place_frames(rw, k, n, first_min, gen_frame_hex, p_corrupt) if k else []
         left -= len(frames)
         windows.append({"n": n, "nseed": rn.getrandbits(31), "frames": frames})
     noise = finish_noise(windows, shape, snr)
-    if rn.random() < 0.3:
+    if decreasing:
         decreasing_levels(rn, windows, shape, noise)
     return {"rig": NAME, "prop": PROP, "noise": noise, "windows": windows}
 
@@ -175,6 +222,8 @@ def check_premise(sc):
         pk = w.get("pk", no["peak"])
         if prev_pk is not None and pk > prev_pk * (1 + 1e-12):
             return False  # noise level must not rise within a run
+        if prev_pk is not None and pk < prev_pk and any(f["start"] < 400 for f in w["frames"]):
+            return False  # after a drop the window starts with >= 2 noise-only 100-us windows
         prev_pk = pk
         wmin = window_min_pulse(w)
         if wmin is not None and no["shape"] != "zero" and pk > wmin / (10 ** 0.5) * (1 + 1e-12):
@@ -185,7 +234,7 @@ def check_premise(sc):
             fs = rf.frame_samples(nb)
             if f["start"] < 0 or f["start"] + fs > w["n"]:
                 return False
-            if wi == 0 and f["start"] < 400:
+            if wi == 0 and f["start"] < 400 and no.get("regime") != "dense":
                 return False
             if end_prev is not None and f["start"] - end_prev < MIN_GAP:
                 return False
@@ -196,6 +245,12 @@ def check_premise(sc):
             minp = m if minp is None else min(minp, m)
         if w["n"] < 400:
             return False
+        if wi == 0 and no.get("regime") == "dense":
+            # the receiver must be able to hear the noise alone for 100 us
+            # somewhere in its first buffer: an aligned 200-sample window free of frames
+            busy = [(f["start"], f["start"] + rf.frame_samples(len(f["hex"]) * 4)) for f in w["frames"]]
+            if not any(all(b <= a0 or a >= a0 + 200 for a, b in busy) for a0 in range(0, w["n"] - 199, 200)):
+                return False
     if minp is not None and no["shape"] != "zero" and "pk" not in sc["windows"][0] and no["peak"] > minp / (10 ** 0.5) * (1 + 1e-12):
         return False
     return True
@@ -254,6 +309,14 @@ def execute(sc, keep_log=False):
         if "pk" in w and wi > 0 and w["pk"] < sc["windows"][wi - 1].get("pk", 0) * 0.5 and w["frames"]:
             stats.c["probe.noise_level_dropped_by_half_or_more"] += 1
         stats.c["noise." + no["shape"]] += 1
+        if wi == 0 and no.get("regime") == "dense" and w["n"] > 12800:
+            busy = [(f["start"], f["start"] + rf.frame_samples(len(f["hex"]) * 4)) for f in w["frames"]]
+            if not any(all(b <= a0 or a >= a0 + 200 for a, b in busy) for a0 in range(0, 12800, 200)):
+                stats.c["probe.dense_first_buffer_no_quiet_window_in_first_12800_samples"] += 1
+        for a, b in zip(w["frames"], w["frames"][1:]):
+            if a["hex"] == b["hex"]:
+                stats.c["probe.same_frame_twice_in_a_row"] += 1
+                break
         nontrivial = bool(w["frames"]) and (no["shape"] != "zero" or any(f["flips"] for f in w["frames"]) or wi > 0)
         stats.sig((wi > 0, no["shape"], no.get("regime", "stationary"), tuple(sig)), nontrivial)
         bad17 = [g for g in got if len(g) == 28 and R.hex_df(g) == 17 and R.crc_of_hex(g) != 0]
